@@ -61,6 +61,10 @@ type innerListener struct {
 	queue  chan *innerConn
 	closed chan struct{}
 	isCl   bool
+
+	// closeErr makes the first Close report an error although the listener
+	// is closed by it, as a socket's close can.
+	closeErr bool
 }
 
 func (l *innerListener) Accept() (c net.Conn, err error) {
@@ -89,6 +93,11 @@ func (l *innerListener) Close() (err error) {
 
 	l.isCl = true
 	close(l.closed)
+	if l.closeErr {
+		l.w.s.Fault("inner-close-reports-error")
+
+		return errors.New("sim listener: close: input/output error")
+	}
 
 	return nil
 }
@@ -223,6 +232,8 @@ func run(s *kernel.Sim, _, cfg string) {
 			idx:    i,
 			queue:  make(chan *innerConn, 64),
 			closed: make(chan struct{}),
+
+			closeErr: t.Chance(1, 4, "inner-close-fails"),
 		}
 		lsnrs[i] = lim.Limit(inners[i], &dnsserver.ServerInfo{
 			Name:  fmt.Sprintf("srv%d", i),
